@@ -429,3 +429,6 @@ def run(ctx):
     check_payback(ctx, model)
     check_router(ctx, model)
     check_router_threading(ctx, model)
+    # each fee is booked as what it is: the value stored in each ledger and burned is CONFIG.fees.<that fee>.compute(loan)
+    from .C07 import check_vault_after_trade
+    check_vault_after_trade(ctx.renamed({"C07-F1": "C06-X3", "C07-F2": "C06-X3"}), model)
